@@ -333,7 +333,7 @@ func (cc *c18ConsCase) localStep() bool {
 	j.Count("cons/local-" + label)
 	j.Pending(in)
 	res := c18Guard(run)
-	what := fmt.Sprintf("the node's own step [%s] at height %d round %d step %d after the deliveries of this case (consensus routine: CONSENSUS FAILURE)", label, H, R, cs.Step)
+	what := fmt.Sprintf("the node's own step [%s] at height %d round %d step %d (consensus routine: CONSENSUS FAILURE) after the peer's deliveries ... %s", label, H, R, cs.Step, strings.Join(cc.recent, " | "))
 	obs, term := c.classify(res, what, "alloc-consensus-localstep")
 	if term {
 		j.Result(obs + "-CS")
